@@ -71,15 +71,20 @@ Fails(t) ==
          \* and the two error codes are those of one of the two serial orders of the atomic steps of
          \* Electric.tla (no normal mode before: exactly one call is refused; another normal mode
          \* before: both are) - cf. AtMostOneNormal / Serializable of ElectricConc.tla
-         LET s0 == StateOf(t.pre, FALSE)
+         LET s0 == StateOf(t.pre, t.pre.active.id # "")
              a1 == Step(s0, t.now, t.ops[1], "n1")
              a2 == Step(a1.post, t.now, t.ops[2], "n2")
              b2 == Step(s0, t.now, t.ops[2], "n2")
              b1 == Step(b2.post, t.now, t.ops[1], "n1")
          IN If(t.panic = "", "panic")
             \cup If(AMO(ModesOf(t.post.modes)), "at-most-one-normal")
+            \* a switch to x against DeleteMode(x) (ActiveExists of ElectricConc.tla): the active mode
+            \* exists afterwards, and either the switch came first (delete refused) or the delete did
+            \* (switch refused)
+            \cup If(t.post.active.id = "" \/ Has(ModesOf(t.post.modes), t.post.active.id), "active-refers-to-missing-mode")
             \cup If(<<t.errs[1], t.errs[2]>> \in {<<a1.err, a2.err>>, <<b1.err, b2.err>>},
-                    "exactly-one-of-two-normal-writers-refused")
+                    IF \E k \in 1..2 : t.ops[k].op = "Delete" THEN "outcome-of-no-serial-order"
+                    ELSE "exactly-one-of-two-normal-writers-refused")
     [] t.kind = "cnormal" ->
          \* the table read by a caller whose UpdateMode(normal = true) just succeeded, others racing
          If(AMO(ModesOf(t.modes)), "at-most-one-normal")
